@@ -37,14 +37,17 @@ def _custom_object_builder(cls, type, properties, version, base_class):
         _properties = prop_dict
 
         def __init__(self, **kwargs):
-            base_class.__init__(self, **kwargs)
-            _cls_init(cls, self, kwargs)
             ext = getattr(self, 'with_extension', None)
             if ext and version != '2.0':
-                if 'extensions' not in self._inner:
-                    self._inner['extensions'] = {}
-                    _restore_property_order(self)
-                self._inner['extensions'][ext] = class_for_type(ext, version, "extensions")()
+                # The type's own extension is part of the object from the start, so
+                # that everything checked at construction (granular marking
+                # selectors among them) sees the object as it will be.
+                given = kwargs.get('extensions')
+                if given is None or isinstance(given, dict):
+                    kwargs['extensions'] = dict(given or {})
+                    kwargs['extensions'][ext] = class_for_type(ext, version, "extensions")()
+            base_class.__init__(self, **kwargs)
+            _cls_init(cls, self, kwargs)
 
     _CustomObject.__name__ = cls.__name__
 
@@ -84,14 +87,17 @@ def _custom_observable_builder(cls, type, properties, version, base_class, id_co
             _id_contributing_properties = id_contrib_props
 
         def __init__(self, **kwargs):
-            base_class.__init__(self, **kwargs)
-            _cls_init(cls, self, kwargs)
             ext = getattr(self, 'with_extension', None)
             if ext and version != '2.0':
-                if 'extensions' not in self._inner:
-                    self._inner['extensions'] = {}
-                    _restore_property_order(self)
-                self._inner['extensions'][ext] = class_for_type(ext, version, "extensions")()
+                # The type's own extension is part of the object from the start, so
+                # that everything checked at construction (granular marking
+                # selectors among them) sees the object as it will be.
+                given = kwargs.get('extensions')
+                if given is None or isinstance(given, dict):
+                    kwargs['extensions'] = dict(given or {})
+                    kwargs['extensions'][ext] = class_for_type(ext, version, "extensions")()
+            base_class.__init__(self, **kwargs)
+            _cls_init(cls, self, kwargs)
 
     _CustomObservable.__name__ = cls.__name__
 
